@@ -570,6 +570,7 @@ func runOutbound(nprod, nmsg int, seed int64) string {
 	conn := &scriptConn{done: make(chan struct{}), yield: y}
 	m := util.NewMessageStream(conn, &recParser{inFlight: map[*byte]bool{}})
 	var wg sync.WaitGroup
+	abort := make(chan struct{})
 	for p := 0; p < nprod; p++ {
 		wg.Add(1)
 		go func(p int) {
@@ -580,12 +581,24 @@ func runOutbound(nprod, nmsg int, seed int64) string {
 					sz = 3000 + (p*k)%4000
 				}
 				y()
-				m.Outbound <- &recMsg{data: frame(sz, uint32(p)<<16|uint32(k))}
+				select {
+				case m.Outbound <- &recMsg{data: frame(sz, uint32(p)<<16|uint32(k))}:
+				case <-abort:
+					return
+				}
 			}
 		}(p)
 	}
-	wg.Wait()
-	deadline := time.Now().Add(8 * time.Second)
+	prodDone := make(chan struct{})
+	go func() { wg.Wait(); close(prodDone) }()
+	select {
+	case <-prodDone:
+	case <-time.After(4 * time.Second):
+		close(abort)
+		<-prodDone
+		return "timeout: producers blocked (the writer stopped draining m.Outbound)"
+	}
+	deadline := time.Now().Add(2 * time.Second)
 	for {
 		conn.mu.Lock()
 		n := len(conn.writes)
@@ -594,7 +607,7 @@ func runOutbound(nprod, nmsg int, seed int64) string {
 			break
 		}
 		if time.Now().After(deadline) {
-			return "timeout"
+			return fmt.Sprintf("bad writes=%d of %d after all producers finished", n, nprod*nmsg)
 		}
 		time.Sleep(100 * time.Microsecond)
 	}
